@@ -11,14 +11,17 @@ EXTENDS Integers, Sequences, FiniteSets, TLC, Json, IOUtils
 
 T == ndJsonDeserialize(IOEnv.TRACE)
 VARIABLES l, phase, reg, q, stb, srq, out, lastOp
-S == INSTANCE ScpiStatusNested WITH Cap <- 1, Ops <- {}, NestedOps <- {}
+S == INSTANCE ScpiStatusNested WITH Cap <- 1, Ops <- {}, NestedOps <- {}, SrqOps <- {}
 
 RegIdx == [STB |-> 1, SRE |-> 2, ESR |-> 3, ESE |-> 4, OPER |-> 5, OPERE |-> 6, OPERC |-> 7, QUES |-> 8, QUESE |-> 9, QUESC |-> 10]
 RegOf(rec) == [n \in S!Regs |-> IF n = "SRE" THEN S!Bits(rec.r[RegIdx[n]]) \ {6} ELSE S!Bits(rec.r[RegIdx[n]])]
 StbOf(rec) == S!Bits(rec.r[1])
-OpOf(o) == IF o[1] \in {"set", "setbits", "clrbits"} THEN <<o[1], o[2], S!Bits(o[3])>>
-           ELSE IF o[1] = "cmd" /\ Len(o) = 3 THEN <<o[1], o[2], S!Bits(o[3])>>
-           ELSE o
+OpOf0(o) == IF o[1] \in {"set", "setbits", "clrbits"} THEN <<o[1], o[2], S!Bits(o[3])>>
+            ELSE IF o[1] = "cmd" /\ Len(o) = 3 THEN <<o[1], o[2], S!Bits(o[3])>>
+            ELSE o
+OpOf(o) == IF o[1] \in S!SrqKinds THEN <<o[1]>> \o OpOf0(Tail(o)) ELSE OpOf0(o)
+Reentrant == T[l].op[1] \in S!NestedKinds \cup S!SrqKinds      \* a callback re-enters the library during this step
+PlainOp == IF T[l].op[1] \in S!SrqKinds THEN Tail(T[l].op) ELSE T[l].op
 vars == <<l, phase, reg, q, stb, srq, out, lastOp>>
 Init == /\ l \in 1..Len(T) /\ phase = 0
         /\ reg = RegOf(T[l].f) /\ q = T[l].f.q /\ stb = StbOf(T[l].f)
@@ -41,14 +44,14 @@ Diff == {n \in S!Regs \ {"ESR"} : RegOf(T[l].t)[n] # reg[n]}
         \cup (IF EsrOk THEN {} ELSE {"ESR"})
         \cup (IF q = T[l].t.q THEN {} ELSE {"queue"})
         \cup (IF stb = StbOf(T[l].t) THEN {} ELSE {"STB"})
-        \cup (IF out = T[l].out \/ (T[l].op = <<"cmd", "*SRE?">> /\ Len(T[l].out) = 1 /\ S!Bits(T[l].out[1]) \ {6} = S!Bits(out[1]) \ {6})
+        \cup (IF out = T[l].out \/ (PlainOp = <<"cmd", "*SRE?">> /\ Len(T[l].out) = 1 /\ S!Bits(T[l].out[1]) \ {6} = S!Bits(out[1]) \ {6})
               THEN {} ELSE {"out"})
-        \cup (IF srq # <<>> /\ T[l].srq = <<>> THEN {"srq-missing"} ELSE {})
+        \cup (IF Len(T[l].srq) < Len(srq) THEN {"srq-missing"} ELSE {})
         \* (with a draining callback the last announcement may be that of a passing state: then one of them must carry the final byte or MSS)
-        \cup (IF srq # <<>> /\ T[l].srq # <<>> /\ T[l].op[1] \notin S!NestedKinds /\ S!Bits(T[l].srq[Len(T[l].srq)]) # StbOf(T[l].t) THEN {"srq-not-current-status-byte"} ELSE {})
+        \cup (IF srq # <<>> /\ T[l].srq # <<>> /\ ~Reentrant /\ S!Bits(T[l].srq[Len(T[l].srq)]) # StbOf(T[l].t) THEN {"srq-not-current-status-byte"} ELSE {})
         \cup (IF \E i \in 1..Len(T[l].srq) : 6 \notin S!Bits(T[l].srq[i]) THEN {"srq-without-mss"} ELSE {})
         \* (a push drained by the error callback may raise MSS in passing: the announcement in between is legitimate)
-        \cup (IF T[l].srq # <<>> /\ 6 \notin StbOf(T[l].t) /\ 6 \notin StbOf(T[l].f) /\ T[l].op[1] \notin S!NestedKinds THEN {"srq-while-mss-clear"} ELSE {})
+        \cup (IF T[l].srq # <<>> /\ 6 \notin StbOf(T[l].t) /\ 6 \notin StbOf(T[l].f) /\ ~Reentrant THEN {"srq-while-mss-clear"} ELSE {})
 Conforms == phase = 1 =>
               IF Judged THEN Diff = {} \/ PrintT(<<"MISMATCH", l, Diff>>)
               ELSE PrintT(<<"UNJUDGED", l>>)
